@@ -83,6 +83,9 @@ func setup() (*fixture, error) {
 	}
 	fx.validL = map[string]string{}
 	for id, l := range layouts {
+		if l.typ == nil {
+			continue
+		}
 		fx.validL[id] = filepath.Join(dir, "valid-"+id+".json")
 		if err = os.WriteFile(fx.validL[id], []byte(l.json), 0o644); err != nil {
 			return nil, err
@@ -131,7 +134,22 @@ type realResult struct {
 	args     []string
 	usage    bool
 	cfg      Cfg
+
+	// after a second Parse call on the same FlagSet (only made when the first returned nil)
+	second      bool
+	secondPanic string
+	secondErr   error
+	args2       []string
+	usage2      bool
+	cfg2        Cfg
 }
+
+// secondVector is handed to a second Parse call on a FlagSet whose first Parse returned nil.
+// Parse "must be called once": a refused second call has to leave Args(), ShowUsage() and the
+// fields as the first call left them. (A library version that accepts a second call is judged
+// by the second vector, which has no flags: Args() = its tail, nothing else changes.)
+var secondVector = []string{"--", "second", "-x"}
+var secondArgs = secondVector[1:]
 
 func runReal(argv []string) (r realResult) {
 	defer func() {
@@ -149,6 +167,18 @@ func runReal(argv []string) (r realResult) {
 	}
 	r.args = fs.Args()
 	r.usage = fs.ShowUsage()
+	first := r.cfg // the By slice is never written in place
+	func() {
+		defer func() {
+			if p := recover(); p != nil {
+				r.secondPanic = fmt.Sprint(p)
+			}
+		}()
+		r.second = true
+		r.secondErr = fs.Parse(append([]string(nil), secondVector...))
+	}()
+	r.args2, r.usage2, r.cfg2 = fs.Args(), fs.ShowUsage(), r.cfg
+	r.cfg = first
 	return r
 }
 
@@ -237,6 +267,24 @@ func judge(op *outcome, rp *realResult, argvModel, argvReal []string) (kind, exp
 	if f := diffCfg(&o.cfg, &r.cfg); f != "" {
 		return "field-differ:" + f, "cfg=" + showCfg(&o.cfg), "cfg=" + showCfg(&r.cfg)
 	}
+	if r.second {
+		wantArgs, what := o.args, "refused second Parse"
+		if r.secondErr == nil {
+			wantArgs, what = secondArgs, "accepted second Parse"
+		}
+		what = fmt.Sprintf("after the %s(%q): ", what, secondVector)
+		switch {
+		case r.secondPanic != "":
+			return "second-parse:panic", "no panic", "panic: " + r.secondPanic
+		case !sameStrings(wantArgs, r.args2):
+			return "second-parse:args-differ", what + fmt.Sprintf("Args()=%q", wantArgs), fmt.Sprintf("Args()=%q", r.args2)
+		case o.usage != r.usage2:
+			return "second-parse:usage-differ", what + fmt.Sprintf("ShowUsage()=%v", o.usage), fmt.Sprintf("ShowUsage()=%v", r.usage2)
+		}
+		if f := diffCfg(&o.cfg, &r.cfg2); f != "" {
+			return "second-parse:field-differ:" + f, what + "cfg=" + showCfg(&o.cfg), "cfg=" + showCfg(&r.cfg2)
+		}
+	}
 	return "", "", ""
 }
 
@@ -266,14 +314,19 @@ var longAliases = strings.NewReplacer(nameLS, "<LS200>", nameLN, "<LN65>", nameL
 
 // evalL evaluates a vector against Cfg (lay == nil) or a table-built struct.
 func evalL(tokens []string, fx *fixture, lay *layout) (kind, expected, observed string, o outcome) {
-	if lay == nil {
+	switch lay {
+	case nil:
 		return eval(tokens, fx)
+	case layoutFCL:
+		return evalFCL(tokens, fx)
 	}
 	return evalG(tokens, fx, lay)
 }
 
 func keyOfL(lay *layout, kind string, tokens []string) string {
-	if lay != nil {
+	if lay == layoutFCL {
+		kind = "FromCommandLine/" + kind
+	} else if lay != nil {
 		kind = "layout-" + lay.id + "/" + kind
 	}
 	return keyOf(kind, tokens)
@@ -339,6 +392,8 @@ func (mon) Level(string) (string, string) {
 	return "exploration", "argument vectors run through the real NewFlagSet(&Cfg{9 types + 4 flags with 63/64/65/200-byte names})+Parse and through a reference parser of the documented grammar; compared: error-vs-nil, Args(), ShowUsage(), all 13 field values, no panic. " +
 		"Exhaustive: every vector of length <= 5 (quick) / <= 6 (thorough, 17.9M) over the 16-token alphabet of DESIGN.md C10, plus every vector of length <= 3 (quick) / <= 4 (thorough) with one -config form (=valid file, =missing file, =invalid JSON, =empty, separate-token valid) inserted at every position; plus every vector of length <= 4 (quick) / <= 5 (thorough) over a second 16-token alphabet that mixes the long-named flags in all spellings (-n=v, --n=v, -n v, bare bool, '=' inside the value, near-miss names) with 7 tokens of the first; " +
 		"random: seeded vectors of <= 12 tokens from well-formed flags of all 13 flags (9 types, long names) in all 4 spellings, near-misses, repeated flags, bool+stray value, unknown names, flag-like values and arbitrary byte strings (quick 1e6, thorough 1e7). " +
+		"After every accepted Parse a second Parse is called on the same FlagSet: when it is refused, Args(), ShowUsage() and the fields must be those of the first call. " +
+		"Both tiers also run: a struct with case-sensitive tag names (n/N, Port, dbHost, X, untagged fields; exhaustive length <= 3 over 16 tokens + 5000 random vectors) and the entry point FromCommandLine with os.Args set in the shard's process (every vector of length <= 3 over the first and <= 2 over the second alphabet + 2e4 (quick) / 4e5 (thorough) random vectors, vectors mentioning help left out), judged by the same reference parser. " +
 		"Thorough only: (a) exhaustive sweeps of length <= 5 over four further alphabets for Cfg - 'ints' (24 tokens: unsigned flags with negative / >2^63 / hex / octal / underscore values, +5, ' 5', '5 ', values in the next token), 'forms' (24: float, duration, bool, base64 text forms valid and invalid, so that repeated flags occur invalid-then-valid and valid-then-invalid), 'edges' (24: '--', '-', the empty token, '=' at every position, control bytes, invalid UTF-8), 'config' (20: -config in every spelling and position, repeated, missing file, invalid JSON, empty, value in the next token); " +
 		"(b) two further structs built with reflect.StructOf from the same table as the model's flag set: 'names' (40 flags nested up to 5 levels: names that are prefixes of each other, differ only in case or in '-'/'_'/'.', neighbours of help/config, names like 5, 1, x-, a b, c,d, untagged fields; exhaustive length <= 4 over 32 tokens + 3e6 random vectors) and 'wide' (120 flags w0..w119 of all 9 types nested up to 6 levels; exhaustive length <= 4 over 16 tokens + 1.5e6 random vectors of <= 24 tokens); " +
 		"(c) 1.6e7 random vectors of <= 16 tokens from a richer token grammar (0-3 dashes, mutated names, '=' at a random position, '==', wide pools of valid/invalid text per type, chosen invalid/valid repetitions); (d) 4096 vectors of up to 10^4 tokens in 9 shapes (thousands of repeated flags then args, bad-then-good, good-then-bad-last, '--' then flag-like tokens, missing value / undefined flag at the very end, positional only, one flag repeated, -config repeated). Counters cases_<workload>/accepted_<workload>, long_shape_*, max.vector_tokens. " +
@@ -383,6 +438,15 @@ func (mon) Plan(prop, tier string, seed int64) []drv.Shard {
 		a, _ := json.Marshal(shardArgs{Kind: "rand", Part: p, Parts: parts, Count: nrand / parts})
 		out = append(out, drv.Shard{Name: fmt.Sprintf("rand-%d", p), Args: a})
 	}
+	// both tiers: case-sensitive tag names; the FromCommandLine entry point
+	nfcl := 20000
+	if tier == "thorough" {
+		nfcl = 400000
+	}
+	a, _ := json.Marshal(shardArgs{Kind: "case", Alpha: "case", Layout: "case", MaxLen: 3, Count: 5000, MaxTok: 10, Parts: 1})
+	out = append(out, drv.Shard{Name: "case-0", Args: a})
+	a, _ = json.Marshal(shardArgs{Kind: "fcl", Layout: "fcl", Count: nfcl, Parts: 1})
+	out = append(out, drv.Shard{Name: "fcl-0", Args: a})
 	if tier != "thorough" {
 		return out
 	}
@@ -589,13 +653,27 @@ func (mn mon) Run(sh drv.Shard, c *drv.Ctx) {
 		rn.tag = sh.Name[:i]
 	}
 	// the canary is an ordinary case first; it is used as canary only if it is parsed correctly
-	var ck string
-	ck, _, _, rn.canaryO = evalL(rn.canaryVec(), fx, rn.lay)
-	if !rn.exec(rn.canaryVec()) {
-		return
+	// (no canary for FromCommandLine: the canary asks for the usage)
+	if rn.lay != layoutFCL {
+		var ck string
+		ck, _, _, rn.canaryO = evalL(rn.canaryVec(), fx, rn.lay)
+		if !rn.exec(rn.canaryVec()) {
+			return
+		}
+		rn.canaryOn = ck == ""
 	}
-	rn.canaryOn = ck == ""
 	switch a.Kind {
+	case "case":
+		runSweep(rn, themed[a.Alpha], a.MaxLen, 0, 1)
+		g := newRandG(rn.lay.names, rn.lay.kinds)
+		r := rand.New(rand.NewSource(sh.Seed*1000003 + 99))
+		for i := 0; i < a.Count; i++ {
+			if !rn.exec(g.vector(r, a.MaxTok)) {
+				return
+			}
+		}
+	case "fcl":
+		runFCLShard(rn, sh.Seed, a.Count)
 	case "exh":
 		runExhaustive(rn, a)
 	case "rand":
@@ -647,6 +725,11 @@ func (mon) Finish(prop, tier string, mg *drv.Merged) (inc []string) {
 		"stop_ddash", "stop_dash", "stop_nonflag", "stop_end", "accept_repeated_flag", "accept_bool_then_nonflag", "accept_value_looks_like_flag", "accept_config_loaded", "accept_usage_true", "accept_args_nonempty"} {
 		if mg.Sum[k] == 0 {
 			inc = append(inc, "no vector of class "+k+" was evaluated")
+		}
+	}
+	for _, t := range []string{"case", "fcl"} {
+		if mg.Sum["cases_"+t] == 0 || mg.Sum["accepted_"+t] == 0 {
+			inc = append(inc, "workload "+t+" evaluated no vector or none that the grammar accepts")
 		}
 	}
 	if tier == "thorough" {
